@@ -17,28 +17,26 @@ theorem entGate_code (n : Int) : Gen.Code.NewMnemonicByEntropy_gate n = entGate 
   have h1 := entGate_iff n
   cases h : Gen.Code.NewMnemonicByEntropy_gate n <;> cases h' : entGate n <;> simp_all
 
-/-- `NewMnemonicByEntropy`, for every input -/
+/-- `NewMnemonicByEntropy`, for every input.  The word count handed to `fromEntropy` may be computed
+by any arithmetic the translator accepts (`entLen/4*3`, `entLen-entLen/4`, …): it is *evaluated* at
+each of the five lengths the gate lets through and compared with the model's value there. -/
 theorem refine_NewMnemonicByEntropy (W : World) (e : Bytes) (ℓ : Int) (st : St) :
     Gen.Code.NewMnemonicByEntropy W e ℓ st = (Model.newMnemonicByEntropy W.D e ℓ, st) := by
   unfold Gen.Code.NewMnemonicByEntropy newMnemonicByEntropy
   dsimp only
-  unfold lenBytes
+  (try unfold lenBytes)
   rw [entGate_code]
   cases hg : entGate (e.length : Int) with
   | true => rfl
   | false =>
     have hn := (entGate_iff _).mp hg
-    have hwl : mulI (divIc (e.length : Int) 4) 3 = entWordLen (e.length : Int) := by
-      have h3 : entWordLen (e.length : Int) = (e.length : Int).tdiv 4 * 3 := rfl
-      rw [h3]
-      unfold mulI divIc
-      rcases hn with h | h | h | h | h <;> rw [h] <;> decide
-    rw [hwl]
-    have hw : entWordLen (e.length : Int) < 9223372036854775808 := by
-      have h3 : entWordLen (e.length : Int) = (e.length : Int).tdiv 4 * 3 := rfl
-      rw [h3]
-      rcases hn with h | h | h | h | h <;> rw [h] <;> decide
     simp only [Bool.false_eq_true, if_false]
-    rw [bind_pure_id, refine_fromEntropy W e _ ℓ st (by omega) hw]
+    have hcongr : ∀ a b : Int, a = b →
+        (Model.fromEntropy W.D e a ℓ, st) = (Model.fromEntropy W.D e b ℓ, st) := by
+      intro a b h; rw [h]
+    generalize hk : (e.length : Int) = k at hn ⊢
+    rcases hn with rfl | rfl | rfl | rfl | rfl <;>
+    · rw [bind_pure_id, refine_fromEntropy W e _ ℓ st (by omega) (by decide)]
+      exact hcongr _ _ (by decide)
 
 end Bip39V
